@@ -219,8 +219,8 @@ class Unit:
             st.assume(self.se.boolean(src, st, init=self.init))
         for src in self.c.requires:
             st.assume(self.se.boolean(src, st, init=self.init))
-        for name, (var, n_src, term_src) in self.c.sums.items():
-            self.declare_sum(name, var, n_src, term_src, st)
+        for name, sdef in self.c.sums.items():
+            self.declare_sum(name, sdef[0], sdef[1], sdef[2], st, sdef[3] if len(sdef) > 3 else (), unit=(len(sdef) > 4 and sdef[4] == "unit"))
         for a, src in self.c.extents.items():
             if a not in st.arrs:
                 self.errors.append("contract names unknown array %s" % a)
@@ -231,18 +231,31 @@ class Unit:
         self.init = st.fork()
         return st
 
-    def declare_sum(self, name, var, n_src, term_src, st):
-        """ghost prefix sum S(0)=0, S(q+1)=S(q)+term(q) for 0<=q<n, plus the lemma that S is
+    def declare_sum(self, name, var, n_src, term_src, st, ctx=(), unit=False):
+        """ghost prefix sum S(ctx..., 0)=0, S(ctx..., q+1)=S(ctx..., q)+term(q) for 0<=q<n, plus the lemma that S is
         non-decreasing on [0,n] -- the lemma is not assumed but proved here by induction:
-        obligations L.nonneg (every term >= 0 under the precondition) and L.step."""
+        obligations L.nonneg (every term >= 0 under the precondition) and L.step.
+        ctx: names of arrays/scalars the sum depends on; they become leading arguments of the ghost, so the
+        same ghost applied to the same buffer is the same term in another function's contract (Engine G)."""
         ev = self.ev
-        self.se.ghosts.declare(name, ["x"], None)
-        S = sym.uf("ghost_" + name, sym.I, sym.I)
+        self.se.ghosts.declare(name, list(ctx) + ["x"], None)
+        cvals = []
+        for cname in ctx:
+            if cname in st.arrs:
+                cvals.append(st.arrs[cname])
+            elif cname in st.vars and st.vars[cname].k in ("int", "bool"):
+                cvals.append(st.vars[cname].t)
+            else:
+                raise spec.SpecError("sum %s: unknown context %s" % (name, cname))
+        Sf = sym.uf("ghost_" + name, *([c.sort() for c in cvals] + [sym.I, sym.I]))
+
+        def S(x):
+            return Sf(*(cvals + [x]))
         n = self.se.term(n_src, st, init=self.init)
         q = z3.Int("q?%s" % name)
         tq = self.se.term(term_src, st, init=self.init, bound={var: q})
         tq = self.se.int(tq)
-        st.assume(S(0) == 0)
+        st.assume(S(z3.IntVal(0)) == 0)
         st.assume(z3.ForAll([q], z3.Implies(z3.And(0 <= q, q < n), S(q + 1) == S(q) + tq), patterns=[S(q + 1)]))
         ev.loc_label = "lemma:" + name
         ev.line = None
@@ -253,6 +266,15 @@ class Unit:
         step = z3.Implies(z3.And(0 <= a, a <= b, b < n, S(a) <= S(b), tb >= 0, S(b + 1) == S(b) + tb), S(a) <= S(b + 1))
         ev.oblige("L.step", z3.ForAll([a, b], step), st, "induction step of: %s is non-decreasing" % name)
         st.assume(z3.ForAll([a, b], z3.Implies(z3.And(0 <= a, a <= b, b <= n), S(a) <= S(b)), patterns=[z3.MultiPattern(S(a), S(b))]))
+        if unit:
+            # terms are 0 or 1 (a count): the count over [a,b) is at most b - a; proved by the same induction
+            ev.oblige("L.unit", z3.ForAll([q], z3.Implies(z3.And(0 <= q, q < n), tq <= 1)), st,
+                      "every term of the prefix count %s is at most 1" % name)
+            step2 = z3.Implies(z3.And(0 <= a, a <= b, b < n, S(b) - S(a) <= b - a, tb <= 1, S(b + 1) == S(b) + tb),
+                               S(b + 1) - S(a) <= b + 1 - a)
+            ev.oblige("L.step", z3.ForAll([a, b], step2), st, "induction step of: %s grows by at most 1 per element" % name)
+            st.assume(z3.ForAll([a, b], z3.Implies(z3.And(0 <= a, a <= b, b <= n), S(b) - S(a) <= b - a),
+                                patterns=[z3.MultiPattern(S(a), S(b))]))
 
     def _checked_store(self, arr, idx, v, st, src_ty=None):
         for src in self.c.store_asserts.get(arr, []):
